@@ -380,6 +380,9 @@ func (c c01Case) describes(rr schemahandler.RawRecord, out []byte) string {
 		return ""
 	}
 	for i := 0; i < c.Shape.NCols; i++ {
+		if i == c.Shape.IntCol {
+			continue // the int cast changes the representation ("000" -> 0)
+		}
 		name := fmt.Sprintf("c%d", i)
 		v, present := m[name]
 		if !present {
